@@ -11,7 +11,12 @@
 //!                        | `K<D|B|I><depth>` engine.set_config (same memoisation / max_solutions, new strategy and depth);
 //!                          queries after a `K` are reported with kind `k` (the cache model is not run on them:
 //!                          set_config rebuilds the goal manager), the fresh engine uses the configuration in force
-//! obs  := one item per Q/N/A op, `;`-separated:  `<kind q|a|k>/<key>/<answer>/<fresh>/<hit>/<flags>`
+//!                        | `E<k>` engine.query_aggregate(MALFORMED[k]): an aggregate query that returns Err — the header parses and
+//!                          the WHERE pattern does not (k < 6), or the header itself is rejected (k >= 6, control)
+//!   additions to c09's value / atom syntax, handled here (c09.rs is unchanged): val `z` = Value::Null (init facts, S, X, query
+//!   literal `F<i>.<op>.z` = `<field> <op> null`, rule condition literal and Set literal); rule condition atom `F<i>.ex.t` = the
+//!   test `exists(<field>)`
+//! obs  := one item per Q/N/A/E op, `;`-separated:  `<kind q|a|k>/<key>/<answer>/<fresh>/<hit>/<flags>`
 //!   key = query text | max_solutions in force | canonical facts before the call — hex of the text when it is short,
 //!         `h<len>.<two 64-bit FNV digests>` of the text when it is longer than 160 bytes (large stores; the key is only
 //!         compared for equality by the cache model)
@@ -21,14 +26,155 @@
 //!   on identical facts; `p` the same query was asked earlier on facts that are a non-trivial PERMUTATION of the present
 //!   ones (same names, same multiset of values, another assignment); `L` the engine's own key text (query, max_solutions,
 //!   Debug of the facts sorted by name) is longer than 1024 bytes; `c` the same query was asked earlier on facts whose
-//!   rendering shares the first 1024 bytes with the present one but differs later
+//!   rendering shares the first 1024 bytes with the present one but differs later; `E` an aggregate call that returns Err on the
+//!   fresh engine; `e` a query asked after an aggregate call failed on this engine; `w` an earlier call's engine key text differs
+//!   from this one's ONLY in whitespace (blanks inside a string literal of the query / inside a string value of the facts);
+//!   `z` the same query was asked earlier on facts that differ from the present ones ONLY in entries holding Null (absent vs Null)
 #[allow(dead_code)]
 #[path = "c09.rs"]
 mod c09;
 use c09::{build_engine, parse_case, show_facts, FIELDS};
 use rre_harness::*;
 use rust_rule_engine::engine::facts::Facts;
-use rust_rule_engine::types::Value;
+use rust_rule_engine::engine::rule::{ConditionExpression, ConditionGroup, Rule};
+use rust_rule_engine::types::{ActionType, Value};
+
+/// aggregate queries that return Err. 0..=5: `parse_aggregate_query` accepts the header and the INNER query fails on the WHERE
+/// pattern (the error path behind the temporary max_solutions / memoisation switch); 6..: rejected before that (control)
+const MALFORMED: [&str; 8] = [
+    "count(?x) WHERE (((",
+    "count(?x) WHERE A ==",
+    "sum(?x) WHERE )",
+    "count(?x) WHERE A == \"open",
+    "first(?x) WHERE && B",
+    "last(?x) WHERE (A == true",
+    "count(?x) A == true",
+    "total(?x) WHERE A == true",
+];
+
+const NULL_SENTINEL: &str = "ZNULLZ";
+const EXISTS_SENTINEL: &str = "ZEXISTSZ";
+
+/// c11's additions to c09's rule syntax (`z` literal, `F<i>.ex.t` atom) rewritten to string sentinels c09's parser accepts
+fn lower_rules(rules: &str) -> String {
+    if rules == "-" {
+        return rules.to_string();
+    }
+    let mut out = Vec::new();
+    for r in rules.split(';') {
+        let Some((c, a)) = r.split_once('~') else {
+            out.push(r.to_string());
+            continue;
+        };
+        let conds: Vec<String> = c
+            .split(',')
+            .map(|t| {
+                if let Some(f) = t.strip_suffix(".ex.t") {
+                    format!("{}.eq.s{}", f, EXISTS_SENTINEL)
+                } else if let Some(x) = t.strip_suffix(".z") {
+                    format!("{}.s{}", x, NULL_SENTINEL)
+                } else {
+                    t.to_string()
+                }
+            })
+            .collect();
+        let acts: Vec<String> = a
+            .split('+')
+            .map(|t| match t.strip_suffix(":=z") {
+                Some(f) => format!("{}:=s{}", f, NULL_SENTINEL),
+                None => t.to_string(),
+            })
+            .collect();
+        out.push(format!("{}~{}", conds.join(","), acts.join("+")));
+    }
+    out.join(";")
+}
+
+fn raise_group(g: &mut ConditionGroup) {
+    match g {
+        ConditionGroup::Single(c) => {
+            if c.value == Value::String(NULL_SENTINEL.to_string()) {
+                c.value = Value::Null;
+            } else if c.value == Value::String(EXISTS_SENTINEL.to_string()) {
+                if let ConditionExpression::Field(name) = c.expression.clone() {
+                    c.expression = ConditionExpression::Test { name: "exists".to_string(), args: vec![name] };
+                    c.value = Value::Boolean(true);
+                }
+            }
+        }
+        ConditionGroup::Compound { left, right, .. } => {
+            raise_group(left);
+            raise_group(right);
+        }
+        _ => {}
+    }
+}
+
+/// … and the sentinels replaced by what they stand for in the parsed rules
+fn raise_rules(rules: &mut [Rule]) {
+    for r in rules.iter_mut() {
+        raise_group(&mut r.conditions);
+        for a in r.actions.iter_mut() {
+            if let ActionType::Set { value, .. } = a {
+                if *value == Value::String(NULL_SENTINEL.to_string()) {
+                    *value = Value::Null;
+                }
+            }
+        }
+    }
+}
+
+/// `F<i>=z` entries of a fact list: (fields set to Null, the remaining list in c09's syntax)
+fn split_nulls(facts: &str) -> Option<(Vec<usize>, String)> {
+    if facts == "-" {
+        return Some((vec![], "-".to_string()));
+    }
+    let mut nulls = Vec::new();
+    let mut rest = Vec::new();
+    for kv in facts.split(',') {
+        match kv.strip_suffix("=z") {
+            Some(f) => {
+                let i: usize = f.strip_prefix('F')?.parse().ok()?;
+                if i >= FIELDS.len() {
+                    return None;
+                }
+                nulls.push(i);
+            }
+            None => rest.push(kv),
+        }
+    }
+    Some((nulls, if rest.is_empty() { "-".to_string() } else { rest.join(",") }))
+}
+
+/// query text of an atom; `F<i>.<op>.z` is the comparison with the literal `null`
+fn query_text(cfg: &str, atom: &str) -> Option<String> {
+    if let Some(x) = atom.strip_suffix(".z") {
+        let (f, op) = x.split_once('.')?;
+        let i: usize = f.strip_prefix('F')?.parse().ok()?;
+        if i >= FIELDS.len() {
+            return None;
+        }
+        let op = match op {
+            "eq" => "==",
+            "ne" => "!=",
+            "gt" => ">",
+            "lt" => "<",
+            "ge" => ">=",
+            "le" => "<=",
+            _ => return None,
+        };
+        return Some(format!("{} {} null", FIELDS[i], op));
+    }
+    Some(parse_case(&format!("{} - {} -", cfg, atom))?.query)
+}
+
+fn strip_ws(s: &str) -> String {
+    s.split_whitespace().collect()
+}
+
+fn without_nulls(c: &[(String, String)]) -> Vec<(String, String)> {
+    c.iter().filter(|(_, v)| v != "z").cloned().collect()
+}
 
 fn deep_copy(f: &Facts) -> Facts {
     let g = Facts::new();
@@ -52,6 +198,7 @@ fn parse_xval(s: &str) -> Option<Value> {
     match s.chars().next()? {
         't' if s == "t" => Some(Value::Boolean(true)),
         'f' if s == "f" => Some(Value::Boolean(false)),
+        'z' if s == "z" => Some(Value::Null),
         'n' => Some(Value::Number(s[1..].parse::<i64>().ok()? as f64)),
         'i' => Some(Value::Integer(s[1..].parse().ok()?)),
         's' => Some(Value::String(s[1..].replace('_', " "))),
@@ -74,6 +221,7 @@ fn show_any(v: &Value) -> String {
         Value::Number(x) => format!("n{:x}", x.to_bits()),
         Value::Integer(i) => format!("i{}", i),
         Value::String(s) => format!("s{}", hex(s)),
+        Value::Null => "z".into(),
         other => format!("?{}", hex(&format!("{:?}", other))),
     }
 }
@@ -92,7 +240,7 @@ fn canon(f: &Facts) -> Vec<(String, String)> {
 /// canonical text of the facts for the observation key: c09's rendering while only FIELDS are present (as before),
 /// `name=value` of every fact otherwise
 fn facts_text(f: &Facts, c: &[(String, String)]) -> String {
-    if c.iter().all(|(k, _)| FIELDS.contains(&k.as_str())) {
+    if c.iter().all(|(k, v)| FIELDS.contains(&k.as_str()) && v != "z" && !v.starts_with('?')) {
         show_facts(f)
     } else {
         c.iter().map(|(k, v)| format!("{}={}", k, v)).collect::<Vec<_>>().join(",")
@@ -150,12 +298,18 @@ fn exec(case: &str) -> String {
     let Some((cfg, memo)) = t[0].split_once('m') else { return "bad-case".into() };
     let memo = memo == "1";
     // reuse the c09 parser for configuration, rules and initial facts
-    let Some(mut base) = parse_case(&format!("{} {} F0.eq.t {}", cfg, t[1], t[2])) else { return "bad-case".into() };
+    let Some((init_nulls, init_rest)) = split_nulls(t[1]) else { return "bad-case".into() };
+    let Some(mut base) = parse_case(&format!("{} {} F0.eq.t {}", cfg, init_rest, lower_rules(t[2]))) else { return "bad-case".into() };
+    raise_rules(&mut base.rules);
     let mut engine = build_engine(&base, memo);
+    let mut failed_aggregate = false;
     let mut reconfigured = false;
     let mut facts = Facts::new();
     for (k, v) in &base.facts {
         facts.set(FIELDS[*k], v.clone());
+    }
+    for k in init_nulls {
+        facts.set(FIELDS[k], Value::Null);
     }
     let mut out = Vec::new();
     let mut asked: Vec<Asked> = Vec::new();
@@ -165,6 +319,12 @@ fn exec(case: &str) -> String {
         }
         let (kind, rest) = op.split_at(1);
         match kind {
+            "S" if rest.ends_with("=z") => {
+                let Some((nulls, _)) = split_nulls(rest) else { return "bad-case".into() };
+                for k in nulls {
+                    facts.set(FIELDS[k], Value::Null);
+                }
+            }
             "S" => {
                 let Some(c) = parse_case(&format!("{} {} F0.eq.t -", cfg, rest)) else { return "bad-case".into() };
                 for (k, v) in c.facts {
@@ -218,9 +378,29 @@ fn exec(case: &str) -> String {
                 });
                 reconfigured = true;
             }
+            "E" => {
+                let Some(q) = rest.parse::<usize>().ok().and_then(|k| MALFORMED.get(k)) else { return "bad-case".into() };
+                let cf = canon(&facts);
+                let before = facts_text(&facts, &cf);
+                let mut fresh_engine = build_engine(&base, memo);
+                let mut copy = deep_copy(&facts);
+                let fr = match fresh_engine.query_aggregate(q, &mut copy) {
+                    Ok(v) => show_value(&v),
+                    Err(_) => "e".to_string(),
+                };
+                let ans = match engine.query_aggregate(q, &mut facts) {
+                    Ok(v) => show_value(&v),
+                    Err(_) => "e".to_string(),
+                };
+                if ans == "e" {
+                    failed_aggregate = true;
+                }
+                let key = format!("E{}|max|{}", rest, before);
+                out.push(format!("a/{}/{}/{}/0/{}", show_key(&key), ans, fr, if fr == "e" { "E" } else { "-" }));
+            }
             "Q" | "A" | "N" => {
-                let Some(c) = parse_case(&format!("{} - {} -", cfg, rest)) else { return "bad-case".into() };
-                let query = if kind == "N" { format!("NOT {}", c.query) } else { c.query.clone() };
+                let Some(atom_query) = query_text(cfg, rest) else { return "bad-case".into() };
+                let query = if kind == "N" { format!("NOT {}", atom_query) } else { atom_query };
                 let cf = canon(&facts);
                 let before = facts_text(&facts, &cf);
                 let mut fresh_engine = build_engine(&base, memo);
@@ -270,6 +450,15 @@ fn exec(case: &str) -> String {
                     if asked.iter().any(|a| a.query == query && a.ms == ms && a.text != text && a.text.len() > 1024 && a.text.as_bytes()[..1024] == text.as_bytes()[..1024]) {
                         flags.push('c');
                     }
+                }
+                if failed_aggregate {
+                    flags.push('e');
+                }
+                if asked.iter().any(|a| a.text != text && strip_ws(&a.text) == strip_ws(&text)) {
+                    flags.push('w');
+                }
+                if asked.iter().any(|a| a.query == query && a.ms == ms && a.facts != cf && without_nulls(&a.facts) == without_nulls(&cf)) {
+                    flags.push('z');
                 }
                 if flags.is_empty() {
                     flags.push('-');
@@ -616,6 +805,262 @@ fn gen_late_change(rng: &mut Rng) -> String {
     format!("{} {} {} {}", cfg, init.join(","), if rules.is_empty() { "-".to_string() } else { rules.join(";") }, ops.join(","))
 }
 
+/// pairs of string literals that are equal after deleting whitespace and different before (`_` = blank)
+const WS_PAIRS: [(&str, &str); 8] = [
+    ("sa_b", "sab"),
+    ("s_", "s"),
+    ("s_a", "sa"),
+    ("sb_", "sb"),
+    ("sa__b", "sa_b"),
+    ("s__", "s_"),
+    ("sJohn_Smith", "sJohnSmith"),
+    ("sa_b_c", "sab_c"),
+];
+
+/// whitespace look-alike family: two calls on one engine whose (query, facts) differ ONLY in blanks inside a string —
+/// (a) the same field compared with `"a b"` and then with `"ab"` on unchanged facts, (b) the same query before and after
+/// the caller changes a string value to its look-alike (the goal reads the value directly or through a rule), (c) a
+/// bystander fact changes that way (control: the verdict must not move)
+fn gen_whitespace(rng: &mut Rng) -> String {
+    let (mut u, mut v) = *rng.pick(&WS_PAIRS);
+    if rng.chance(1, 2) {
+        std::mem::swap(&mut u, &mut v);
+    }
+    let f = *rng.pick(&[0u64, 1, 2, 3, 6, 7, 8, 9]);
+    let mut init = Vec::new();
+    let mut rules = Vec::new();
+    let mut ops = Vec::new();
+    for b in [0u64, 1, 2, 6] {
+        if b != f && rng.chance(1, 4) {
+            init.push(format!("F{}={}", b, *rng.pick(&["t", "n1", "sab", "sa_b", "s_"])));
+        }
+    }
+    let qk = |rng: &mut Rng| if rng.chance(1, 6) { "N" } else { "Q" };
+    match rng.below(5) {
+        0 | 1 => {
+            // (a) query literals; the fact holds one of the two (or something else / nothing)
+            match rng.below(6) {
+                0 => {}
+                1 => init.push(format!("F{}={}", f, *rng.pick(&["sx", "t", "s"]))),
+                _ => init.push(format!("F{}={}", f, if rng.chance(1, 2) { u } else { v })),
+            }
+            let op = if rng.chance(5, 6) { "eq" } else { "ne" };
+            let k = qk(rng);
+            ops.push(format!("{}F{}.{}.{}", k, f, op, u));
+            for _ in 0..rng.below(3) {
+                ops.push(other_query(rng));
+            }
+            ops.push(format!("{}F{}.{}.{}", k, f, op, v));
+            if rng.chance(1, 3) {
+                ops.push(format!("{}F{}.{}.{}", k, f, op, u));
+            }
+        }
+        2 | 3 => {
+            // (b) the fact value changes to its look-alike between two askings
+            let derived = rng.chance(1, 2);
+            let lit = if rng.chance(1, 2) { u } else { v };
+            let goal = if derived {
+                let c = format!("F{}.eq.{}", f, lit);
+                let c = if rng.chance(1, 3) { format!("&,{},F4.ne.t", c) } else { c };
+                rules.push(format!("{}~F5:=t", c));
+                if rng.chance(1, 3) {
+                    rules.push(format!("F{}.eq.sx~F4:=t", f));
+                }
+                rng.shuffle(&mut rules);
+                "F5.eq.t".to_string()
+            } else {
+                format!("F{}.{}.{}", f, if rng.chance(5, 6) { "eq" } else { "ne" }, lit)
+            };
+            init.push(format!("F{}={}", f, u));
+            let mut cur = u;
+            let k = qk(rng);
+            ops.push(format!("{}{}", k, goal));
+            for _ in 0..rng.range(1, 3) {
+                if derived {
+                    ops.push("DF5".to_string());
+                }
+                for _ in 0..rng.below(2) {
+                    ops.push(other_query(rng));
+                }
+                cur = if cur == u { v } else { u };
+                ops.push(format!("SF{}={}", f, cur));
+                ops.push(format!("{}{}", k, goal));
+            }
+        }
+        _ => {
+            // (c) only a bystander (a field no rule reads, or an extra fact) changes to its look-alike
+            init.push(format!("F{}={}", f, *rng.pick(&["t", "n1", "sab"])));
+            let goal = format!("F{}.eq.{}", f, *rng.pick(&["t", "n1", "sab"]));
+            let extra = rng.chance(1, 2);
+            let set = |x: &str| if extra { format!("Xnote.text={}", x) } else { format!("SF4={}", x) };
+            ops.push(set(u));
+            ops.push(format!("Q{}", goal));
+            ops.push(set(v));
+            ops.push(format!("Q{}", goal));
+            ops.push(format!("SF{}={}", f, *rng.pick(&["f", "n2", "scd"])));
+            ops.push(format!("Q{}", goal));
+        }
+    }
+    rng.shuffle(&mut init);
+    let strat = ["D", "D", "B", "I"][rng.below(4) as usize];
+    let cfg = format!("{}{}s{}m{}", strat, rng.range(1, 4), if rng.chance(3, 4) { 1 } else { 3 }, if rng.chance(9, 10) { 1 } else { 0 });
+    format!(
+        "{} {} {} {}",
+        cfg,
+        if init.is_empty() { "-".to_string() } else { init.join(",") },
+        if rules.is_empty() { "-".to_string() } else { rules.join(";") },
+        ops.join(",")
+    )
+}
+
+/// error-path family: an aggregate query that returns Err (mostly one whose header parses and whose WHERE pattern does not)
+/// somewhere in the history, followed by ordinary queries — above all NEGATED goals a rule can derive, whose verdict under
+/// depth-first search depends on max_solutions (1 / more), and repeated queries (memoisation must still be on)
+fn gen_failed_aggregate(rng: &mut Rng) -> String {
+    let len = rng.range(1, 3);
+    let premise = *rng.pick(&["F6.eq.n1", "F6.eq.n1", "F7.gt.n3", "F1.eq.sab"]);
+    let mut rules = vec![format!("{}~F0:=t", premise)];
+    for i in 0..len {
+        rules.push(format!("F{}.eq.t~F{}:=t", i, if i + 1 == len { 5 } else { i + 1 }));
+    }
+    if rng.chance(1, 3) {
+        rules.push(format!("F{}.eq.t~F4:=t", rng.below(4)));
+    }
+    rng.shuffle(&mut rules);
+    let mut init = Vec::new();
+    if rng.chance(5, 6) {
+        init.push(match premise {
+            "F6.eq.n1" => "F6=n1",
+            "F7.gt.n3" => "F7=n5",
+            _ => "F1=sab",
+        }
+        .to_string());
+    }
+    if rng.chance(1, 4) {
+        init.push(format!("F{}={}", *rng.pick(&[8u64, 9, 3]), *rng.pick(&["t", "f", "n1"])));
+    }
+    let goals = ["F5.eq.t", "F5.eq.t", "F0.eq.t", "F4.eq.t", "F6.gt.n0"];
+    let restore = |rng: &mut Rng, ops: &mut Vec<String>| {
+        // a proof commits what it derived: take it out again so that the next goal has to be derived, not looked up
+        if rng.chance(4, 5) {
+            for f in [0u64, 1, 2, 4, 5] {
+                ops.push(format!("DF{}", f));
+            }
+        }
+    };
+    let mut ops = Vec::new();
+    for _ in 0..rng.below(3) {
+        ops.push(format!("{}{}", if rng.chance(1, 3) { "N" } else { "Q" }, *rng.pick(&goals)));
+        restore(rng, &mut ops);
+    }
+    let bad = if rng.chance(5, 6) { rng.below(6) } else { rng.range(6, 7) };
+    ops.push(format!("E{}", bad));
+    if rng.chance(1, 5) {
+        ops.push(format!("E{}", rng.below(MALFORMED.len() as u64)));
+    }
+    for _ in 0..rng.range(1, 4) {
+        match rng.below(8) {
+            0..=3 => ops.push(format!("N{}", *rng.pick(&goals))),
+            4..=5 => ops.push(format!("Q{}", *rng.pick(&goals))),
+            6 => ops.push(format!("A{}", *rng.pick(&goals))),
+            _ => ops.push(other_query(rng)),
+        }
+        restore(rng, &mut ops);
+    }
+    let strat = ["D", "D", "D", "I", "B"][rng.below(5) as usize];
+    let cfg = format!("{}{}s{}m{}", strat, rng.range(2, 5), if rng.chance(4, 5) { 1 } else { 3 }, if rng.chance(9, 10) { 1 } else { 0 });
+    format!("{} {} {} {}", cfg, if init.is_empty() { "-".to_string() } else { init.join(",") }, rules.join(";"), ops.join(","))
+}
+
+/// Null family: the same query before and after a fact goes from ABSENT to present-with-Null or back (and to / from an
+/// ordinary value); the goal tells the two apart — `F == null` / `F != null` directly, or through a rule whose condition is
+/// `F == null`, `F != null` or the test `exists(F)`; bystanders holding Null come and go as well (control)
+fn gen_null(rng: &mut Rng) -> String {
+    let f = *rng.pick(&[0u64, 1, 2, 3, 6, 7, 8, 9]);
+    let mut rules = Vec::new();
+    let derived = rng.chance(3, 5);
+    let goal = if derived {
+        let c = match rng.below(6) {
+            0 | 1 => format!("F{}.ex.t", f),
+            2 | 3 => format!("F{}.eq.z", f),
+            4 => format!("F{}.ne.z", f),
+            _ => format!("&,F{}.ex.t,F{}.ne.t", f, f),
+        };
+        rules.push(format!("{}~F5:={}", c, *rng.pick(&["t", "t", "n1"])));
+        if rng.chance(1, 3) {
+            rules.push("F5.eq.t~F4:=t".to_string());
+        }
+        if rng.chance(1, 4) {
+            rules.push(format!("F{}.eq.t~F4:=z", f));
+        }
+        rng.shuffle(&mut rules);
+        if rng.chance(1, 5) { "F4.eq.t" } else if rng.chance(1, 6) { "F5.ne.z" } else { "F5.eq.t" }.to_string()
+    } else {
+        format!("F{}.{}.{}", f, *rng.pick(&["eq", "eq", "ne"]), *rng.pick(&["z", "z", "z", "t", "s"]))
+    };
+    // states of the field: absent / Null / a value
+    let states = ["-", "z", "z", "-", "t", "s", "n0"];
+    let mut cur = *rng.pick(&states[..4]);
+    let mut init = Vec::new();
+    if cur != "-" {
+        init.push(format!("F{}={}", f, cur));
+    }
+    for b in [0u64, 1, 6, 9] {
+        if b != f && rng.chance(1, 4) {
+            init.push(format!("F{}={}", b, *rng.pick(&["z", "t", "n1", "z"])));
+        }
+    }
+    rng.shuffle(&mut init);
+    let mut ops = Vec::new();
+    if rng.chance(1, 5) {
+        ops.push(format!("X{}={}", *rng.pick(&["Memo.note", "0k", "z.last"]), *rng.pick(&["z", "z", "t"])));
+    }
+    let k = if rng.chance(1, 6) { "N" } else { "Q" };
+    let ask = |ops: &mut Vec<String>| {
+        ops.push(format!("{}{}", k, goal));
+        if derived {
+            ops.push("DF5".to_string());
+            ops.push("DF4".to_string());
+        }
+    };
+    ask(&mut ops);
+    for _ in 0..rng.range(1, 4) {
+        for _ in 0..rng.below(2) {
+            ops.push(other_query(rng));
+        }
+        // mostly the absent <-> Null step
+        let next = match cur {
+            "-" if rng.chance(4, 5) => "z",
+            "z" if rng.chance(4, 5) => "-",
+            _ => *rng.pick(&states),
+        };
+        if next == "-" {
+            ops.push(format!("DF{}", f));
+        } else {
+            ops.push(format!("SF{}={}", f, next));
+        }
+        cur = next;
+        if rng.chance(1, 6) {
+            // a Null bystander appears / disappears too
+            if rng.chance(1, 2) {
+                ops.push("XMemo.note=z".to_string());
+            } else {
+                ops.push(format!("SF{}=z", if f == 3 { 2 } else { 3 }));
+            }
+        }
+        ask(&mut ops);
+    }
+    let strat = ["D", "D", "B", "I"][rng.below(4) as usize];
+    let cfg = format!("{}{}s{}m{}", strat, rng.range(1, 4), if rng.chance(3, 4) { 1 } else { 3 }, if rng.chance(9, 10) { 1 } else { 0 });
+    format!(
+        "{} {} {} {}",
+        cfg,
+        if init.is_empty() { "-".to_string() } else { init.join(",") },
+        if rules.is_empty() { "-".to_string() } else { rules.join(";") },
+        ops.join(",")
+    )
+}
+
 fn gen(rng: &mut Rng, n: usize, _tier: &str) -> Vec<String> {
     let mut out = Vec::new();
     for _ in 0..n {
@@ -675,6 +1120,18 @@ fn gen(rng: &mut Rng, n: usize, _tier: &str) -> Vec<String> {
             ops.insert(at + i, p);
         }
         out.push(format!("{} {} {} {}", cfg, init, rules.join(";"), ops.join(",")));
+    }
+    // strings that differ only in blanks: in two query literals, in a fact value before / after a change
+    for _ in 0..n / 10 {
+        out.push(gen_whitespace(rng));
+    }
+    // an aggregate query that fails (malformed WHERE pattern), then negated derivable goals and repeated queries
+    for _ in 0..n / 10 {
+        out.push(gen_failed_aggregate(rng));
+    }
+    // absent vs present-with-Null between two askings of a query that tells them apart
+    for _ in 0..n / 10 {
+        out.push(gen_null(rng));
     }
     out
 }
